@@ -1,3 +1,4 @@
+import random
 """Transition cover of a TLC state graph: dump the graph (-dump dot,actionlabels), then choose a set of
 paths from the initial state that traverses every edge at least once (greedy: shortest prefix to an
 uncovered edge, then keep following uncovered edges)."""
@@ -90,7 +91,8 @@ def behaviours(cfgname, module, want_vars=(), maxlen=70, rng=None, limit=None):
     """Returns (behaviours as lists of (action, args, state-or-None), number of edges, number of states)."""
     edges, nodes, init = graph(cfgname, module, want_vars=want_vars)
     paths = cover_paths(edges, init, maxlen=maxlen, rng=rng)
-    if limit: paths = paths[:limit]
+    if limit and len(paths) > limit:
+        (rng or random).shuffle(paths); paths = paths[:limit]
     cache = {}
     def st(n):
         if not want_vars: return None
